@@ -400,11 +400,17 @@ class Strata2DViewport:
         """Determine the appropriate axis from the position vector."""
         chosen_axis: Optional[Axis] = None
         axis: Axis
-        for axis in ('x', 'y', 'z'):
-            if pos[axis] in (0.0, -65536.0, 65536.0):
-                if chosen_axis is not None:
-                    raise ValueError(f'Multiple axes specified for 2D view position "{pos}"!')
-                chosen_axis = axis
+        # The planar axis is marked with +-65536. Only if that is absent can a zero identify it,
+        # since the other two coordinates may legitimately be zero.
+        markers: list[Axis] = [axis for axis in ('x', 'y', 'z') if pos[axis] in (-65536.0, 65536.0)]
+        if len(markers) == 1:
+            chosen_axis = markers[0]
+        else:
+            for axis in ('x', 'y', 'z'):
+                if pos[axis] in (0.0, -65536.0, 65536.0):
+                    if chosen_axis is not None:
+                        raise ValueError(f'Multiple axes specified for 2D view position "{pos}"!')
+                    chosen_axis = axis
         if chosen_axis is None:
             raise ValueError(f'No axis for 2D view position "{pos}"!')
         u, v = Vec.INV_AXIS[chosen_axis]
